@@ -21,6 +21,7 @@ EXPLANATION = (
     'Also decided (round 8): NameServer changes the storage only through operations the in-memory back-end implements itself (no dict-inherited mutator that bypasses its normalising __setitem__). '
     "Also decided (round 11): Answer shapes follow return_metadata on every path and delegation; remove(name) does not depend on the name's truth value; MemoryStorage.everything answers with a snapshot; the `sql:` file path is taken verbatim; a safe registration is refused for every name that is present. "
     'Also decided (round 10): nsc hands the command-line words to the name server unchanged; the auto-cleaner removes by exact name only. '
+    'Also decided (round 12): Tags reach the storage as a set (the sqlite meta_all query counts rows); the auto-cleaner forgets the unreachable mark of a name that answers again. '
     "Not decided: sqlite's own semantics, reopen equality, histories, injected "
     "statement failures."
 )
@@ -356,6 +357,49 @@ def run(ctx, R, tier):
             rg.loc(refusals[0].ast),
             ("the refusal also requires `%s` to be %s: a safe registration of a name that IS present gets through in the other case - two registrants are both told they own the name"
              % (unparse(extra[0][0], 60), extra[0][1])) if extra else "the refusal is no longer tied to both `safe` and the presence of the name")
+    # the tags of an entry reach the storage as a SET (or None): the sqlite back-end writes one row per element it is given and answers meta_all with
+    # `HAVING COUNT(metadata) = <number of tags asked for>` - a tag stored twice (tags given as a list with a repeat) makes that count wrong on sqlite only
+    for fq_ in ("Pyro5.nameserver.NameServer.register", "Pyro5.nameserver.NameServer.set_metadata"):
+        wf = ctx.fn(fq_)
+        wrd = ctx.rd(wf)
+        wcfg = ctx.cfg(wf)
+        wst = [st for st, t, k in stores_in(wf.node) if k == "assign" and isinstance(t, ast.Subscript) and unparse(t.value) == "self.storage" and isinstance(st.value, ast.Tuple) and len(st.value.elts) == 2]
+        if not wst:
+            raise AnalysisError("%s: the store of (uri, tags) into the storage vanished" % fq_)
+
+        def _is_set_or_none(e, node, depth=0):
+            if depth > 4:
+                return False
+            if isinstance(e, ast.Constant) and e.value is None:
+                return True
+            if isinstance(e, (ast.Set, ast.SetComp)) or (isinstance(e, ast.Call) and isinstance(e.func, ast.Name) and e.func.id in ("set", "frozenset")):
+                return True
+            if isinstance(e, ast.IfExp):
+                return _is_set_or_none(e.body, node, depth + 1) and _is_set_or_none(e.orelse, node, depth + 1)
+            if isinstance(e, ast.BoolOp):
+                return all(_is_set_or_none(v, node, depth + 1) for v in e.values)
+            if isinstance(e, ast.Name):
+                defs = [d for d in wrd.reaching(node, e.id)]
+                return bool(defs) and all(d.kind == "assign" and d.value is not None and _is_set_or_none(d.value, d.node, depth + 1) for d in defs if d.node is not None) and \
+                    all(d.node is not None for d in defs)
+            return False
+        badw = [st for st in wst if not all(_is_set_or_none(st.value.elts[1], n) for n in wcfg.nodes_for(st))]
+        R.check(not badw, "C14-R5", "%s|tags-reach-the-storage-as-a-set" % wf.name, "the tags stored with an entry are set(...) of what was given (or None)", wf.loc(badw[0]) if badw else wf.loc(),
+                "`%s` stores the caller's tag collection as it came: a list with a repeated tag is written as two rows by the sqlite back-end, whose meta_all query counts rows - "
+                "yplookup(meta_all=...) then answers differently on sqlite than on the in-memory back-end" % (unparse(badw[0], 70) if badw else ""))
+    # a name that answers again is no longer "unreachable since ...": the auto-cleaner forgets the mark on a successful probe, not only when it removes the name -
+    # otherwise one failed probe long ago plus one failed probe now removes a registration that was reachable all the time in between
+    acl = ctx.fn("Pyro5.nameserver.AutoCleaner.run")
+    acfg = ctx.cfg(acl)
+    forgets = [n for st, t, k in stores_in(acl.node) if k == "del" and isinstance(t, ast.Subscript) and unparse(t.value) == "self.unreachable" for n in acfg.nodes_for(st)] + \
+        [n for c in walk_no_nested(acl.node) if isinstance(c, ast.Call) and isinstance(c.func, ast.Attribute) and c.func.attr in ("pop", "discard", "clear") and unparse(c.func.value) == "self.unreachable"
+         for n in ctx.node_of(acl, c)]
+    rm_nodes = [n for c in walk_no_nested(acl.node) if isinstance(c, ast.Call) and isinstance(c.func, ast.Attribute) and c.func.attr == "remove" and "nameserver" in unparse(c.func.value)
+                for n in ctx.node_of(acl, c)]
+    on_recovery = [n for n in forgets if not any(acfg.dominates(r_, n) for r_ in rm_nodes)]
+    R.check(bool(on_recovery), "C14-R4", "AutoCleaner|mark-forgotten-when-the-name-answers-again", "the unreachable-since mark of a name is dropped on a path that does not remove the name (the probe succeeded)", acl.loc(),
+            "the only place where a name leaves `self.unreachable` is after its removal from the name server: a name that failed one probe keeps that time stamp for ever - the next "
+            "single failed probe, however much later, removes a registration that is (and was) alive")
     # an answer is a snapshot on both back-ends: MemoryStorage.everything hands out a NEW dict (the sqlite back-end builds one per query) - the storage object itself as
     # the answer is the live registry: it changes under the caller (or while the reply is serialised: "dictionary changed size during iteration"), and a caller that
     # empties its "answer" empties the name server, its own entry included
